@@ -51,7 +51,7 @@ package check
 //@ callers-only[C02] (*Config).MaxReadDepth : (*Engine).CheckRelationTuple, (*Engine).buildTreeRecursive
 //@ callers-only[C02] (*Config).MaxReadWidth : (*Engine).checkExpandSubject
 // the clamp is applied exactly once per request: the clamping entry point is not re-entered from inside the engine
-//@ callers-only[C02] check::(*Engine).CheckRelationTuple : (*Engine).CheckIsMember, (*Engine).BatchCheck
+//@ callers-only[C02] (*Engine).CheckRelationTuple : (*Engine).CheckIsMember, (*Engine).BatchCheck
 
 //@ func (*Engine).CheckIsMember
 //@   props C03 C08
